@@ -4,7 +4,7 @@
 # tests pass with it, the demo fails with it and passes without it; then runs the frpsa checks in $PROPS on it.
 set -u
 export GOFLAGS=-mod=mod GOPROXY=off GOSUMDB=off GOTOOLCHAIN=local; unset GOWORK
-D=$(realpath "$1"); W=/var/tmp/frp-mut
+D=$(realpath "$1"); W=${W:-/var/tmp/frp-mut}
 PROPS=${PROPS:-$(echo "$D" | grep -o "C[0-9][0-9]" | tail -1)}
 reset() { git -C $W checkout -q -- . ; git -C $W clean -fdq; }
 reset; cp /verif/known_findings.txt /tmp/ev-mut/ 2>/dev/null
